@@ -36,6 +36,7 @@ func TestCheck(t *testing.T) {
 		twoClustersIsolation(r)
 		sameUserDifferentGroupsIsolation(r)
 		partialSyncResize(r)
+		negativeLimitRefusedByValidation(r)
 
 		vkit.Sched.Enable(seed, 0.04, 0.02, 0.002)
 		concurrentRuns(r)
@@ -47,6 +48,8 @@ func TestCheck(t *testing.T) {
 		}
 		r.ReportSched()
 
+		r.Require(r.Counter("conc_panics_in_acquire_or_release(not_judged)") == 0, "TryAcquire/Release panicked under concurrent reconfiguration: neither an admission nor a refusal, the statement is silent about it; look at it")
+		r.Require(r.Counter("negative_limits_ACCEPTED_by_validation") == 0 && r.Counter("negative_limits_refused_by_validation") >= 2, "validation accepts a negative max, which this check leaves out as unstorable: drive it")
 		r.Require(r.Counter("seq_panics") == 0, "the limiter panicked in a sequential history (see seq_panic_example); consequences were judged by the monitors but the run is not clean")
 		r.Require(r.Counter("seq_acquires_at_limit") >= 500, "too few sequential acquires at the limit")
 		r.Require(r.Counter("seq_quiescence_checks") >= 500, "too few sequential quiescence probes")
@@ -70,6 +73,7 @@ func TestCheck(t *testing.T) {
 			r.Require(r.Counter("e2e_streams_ended_by_endpoint_removal") >= 3, "too few streams were torn down by an endpoint removal")
 			r.Require(r.Counter("e2e_recreate_coalesced_same_generation") >= 2, "too few end-to-end re-creations at the same generation")
 			r.Require(r.Counter("e2e_same_user_different_groups_scenarios") >= 2, "too few end-to-end same-user/different-groups scenarios")
+			r.Require(r.Counter("e2e_h2_responses") >= 20 && r.Counter("e2e_end_h2-cancel_status_0")+r.Counter("e2e_end_h2-cancel_status_200") >= 3, "too few HTTP/2 endings")
 			r.Require(r.Counter("e2e_two_clusters_scenarios") >= 2, "too few end-to-end two-cluster scenarios")
 			r.Require(r.Counter("e2e_cluster_recreate_scenarios") >= 2 && r.Counter("e2e_limit_zero_scenarios") >= 2, "too few cluster re-create / limit-zero scenarios")
 			r.Require(r.Counter("e2e_storm_scenarios_reaching_the_limit") >= 2 && r.Counter("e2e_storm_refused") >= 20 && r.Counter("e2e_storm_updates") >= 20, "the end-to-end storm did not load the limiter")
